@@ -306,6 +306,28 @@ pub fn items() -> Vec<Item> {
             }
         }
     }
+    // ---- the other file format versions (the corpus and the items above are VCFv4.3; the lazy BCF / VCF genotype
+    // code has version-dependent paths, e.g. explicit phasing of the first allele from 4.4 on)
+    for version in ["4.2", "4.4", "4.5"] {
+        let h1 = VCF_HEADER_1SAMPLE.replace("VCFv4.3", &format!("VCFv{version}"));
+        let h0 = VCF_HEADER_NOSAMPLES.replace("VCFv4.3", &format!("VCFv{version}"));
+        let sets: Vec<(&str, &str, Vec<&str>)> = vec![
+            ("1sample-gt-gq", &h1, vec!["s\t3\t.\tA\tC\t.\t.\t.\tGT:GQ\t0|1:9"]),
+            ("1sample-rich-then-gt", &h1, vec!["s\t1\tid0\tAC\tA,ACG\t10.5\tPASS\tDP=7\tGT:GQ\t1/2:40", "s\t1\t.\tA\tC\t.\t.\t.\tGT\t0/1"]),
+            ("1sample-haploid-then-missing-gt", &h1, vec!["s\t2\t.\tA\t.\t.\t.\t.\tGT\t0", "s\t3\t.\tA\tC\t.\t.\t.\tGT:GQ\t.:5"]),
+            ("nosamples-1info", &h0, vec!["s\t2\t.\tA\tC\t.\t.\tDP=1"]),
+        ];
+        for (name, header, recs) in sets {
+            let model = text(header, &recs, true);
+            v.push(plain(Kind::Vcf, format!("vcf/min-v{version}-{name}"), model.clone(), Side::default()));
+            v.push(plain(Kind::VcfGz, format!("vcfgz/min-v{version}-{name}"), vcore::bgzf::reseal(&model, 65280), Side::default()));
+            for kind in [Kind::Bcf, Kind::BcfRaw] {
+                if let Some(i) = written(kind, format!("{}/min-v{version}-{name}", kind.name()), model.clone(), false) {
+                    v.push(i);
+                }
+            }
+        }
+    }
     // ---- text kinds: mandatory columns only, minimal widths, with and without the final newline
     let mut both = |kind: Kind, name: &str, body: &str, side: Side| {
         v.push(plain(kind, format!("{}/min-{name}", kind.name()), format!("{body}\n").into_bytes(), side.clone()));
